@@ -21,6 +21,7 @@ struct ScriptCfg {
     int maxEdits = 10;
     bool ragged = false;
     bool nameVariants = false;    // parameter / group names that are case variants of other names, names and descriptions beyond what a file holds
+    bool subCountDeviations = false; // frames with one sub-frame fewer / more (accepted; the header must follow when the data stay uniform)
     bool workingCopies = false;   // copies of stored frames taken by the caller, one Frame object refilled with add()
     bool framesParam = false;     // POINT:FRAMES edited by hand at the end
     bool keepRefused = false;     // a parameter whose set() was refused is handed over all the same (it still holds its old content)
@@ -82,6 +83,7 @@ static rc::Gen<Op> gSetupOp(const ScriptCfg &c, bool rates = true) {
 }
 static rc::Gen<long long> frameDev(const ScriptCfg &c) {
     if (c.raggedSub) return g::weightedOneOf<long long>({{8, g::just<long long>(0)}, {1, g::just<long long>(12)}, {2, g::just<long long>(13)}});
+    if (!c.deviations && c.subCountDeviations) return g::weightedOneOf<long long>({{8, g::just<long long>(0)}, {1, g::just<long long>(12)}, {2, g::elementOf(std::vector<long long>{9, 10})}});
     if (!c.deviations) return g::weightedOneOf<long long>({{9, g::just<long long>(0)}, {1, g::just<long long>(12)}});
     return g::weightedOneOf<long long>({{6, g::just<long long>(0)}, {1, g::just<long long>(12)}, {5, uni(1, 10)}, {1, g::just<long long>(11)}});   // 11 = permuted points (known finding KF-D21 while open)
 }
@@ -98,8 +100,9 @@ static rc::Gen<std::vector<Op>> gFrameAdd(const ScriptCfg &c) {
     });
 }
 static rc::Gen<long long> colDev(const ScriptCfg &c, bool analog) {
-    if (!c.deviations) return g::just<long long>(0);
+    if (!c.deviations) return analog ? g::just<long long>(0) : g::weightedOneOf<long long>({{7, g::just<long long>(0)}, {1, g::just<long long>(12)}});   // 12: accepted, the spare point is ignored
     std::vector<long long> devs = {1, 2, 3, 4, 5, 6};
+    if (!analog) devs.push_back(12);
     if (c.ragged) devs.push_back(7);
     if (c.ragged && !analog) devs.push_back(11);
     if (analog) { devs.push_back(9); devs.push_back(10); if (c.ragged) devs.push_back(11); }
@@ -184,7 +187,7 @@ static ScriptCfg cfgFor(const std::string &id, int tier) {
     ScriptCfg c;
     if (tier) { c.maxFrames = 40; c.maxSetup = 24; c.maxEdits = 20; }
     if (id == "C01") { c.extend = true; }
-    else if (id == "C03") { c.reload = true; }
+    else if (id == "C03") { c.reload = true; c.subCountDeviations = true; }     // accepted frames with another sub-frame count are saved too
     else if (id == "C05") { c.deviations = true; c.reload = true; c.lateRates = true; c.fillAtEnd = false; c.badParams = true; }
     else if (id == "C06") { c.workingCopies = true; c.fillAtEnd = false; c.callerReuse = false; c.deviations = true; }   // accepted deviating frames (e.g. points only) must be stored exactly as given too
     else if (id == "C07") { c.deviations = true; c.fillAtEnd = false; }
@@ -200,7 +203,9 @@ static ScriptCfg cfgFor(const std::string &id, int tier) {
 rc::Gen<std::vector<Op>> genFileOpsFor(int tier, bool layouts);
 rc::Gen<std::vector<Op>> genScriptOpsFor(const std::string &id, int tier) {
     const bool editMode = id.size() == 4 && id[3] == 'e';
-    ScriptCfg c = cfgFor(editMode ? id.substr(0, 3) : id, tier);
+    const bool noFill = id.size() == 4 && id[3] == 'n';       // no closing gapfill: the history ends with its last frame / column / edit call
+    ScriptCfg c = cfgFor((editMode || noFill) ? id.substr(0, 3) : id, tier);
+    if (noFill) { c.fillAtEnd = false; c.maxEdits = 2; }
     if (editMode) {      // edits of a loaded file: no fresh setup burst, just edit operations and frames
         c.maxSetup = 3; c.maxFrames = 4; c.reload = true;
         auto mixed = g::weightedOneOf<std::vector<Op>>({{3, one(gEditOp(c))}, {2, gFrameAdd(c)}});
